@@ -25,6 +25,7 @@ impl Worker {
     }
     pub fn materialise(&self, w: &World) -> Result<(), String> {
         let _ = fs::remove_dir_all(self.data());
+        let _ = fs::remove_dir_all(self.dir.join("chainstate")); // a world may place the node's UTXO database next to its block directory
         w.materialise(&self.data()).map_err(|e| format!("materialise: {}", e))
     }
     pub fn fresh_dump(&self) {
